@@ -31,7 +31,7 @@ pub static DEF: CheckDef = CheckDef {
 const GRID: u64 = 120 * 120;
 
 fn families(t: Tier) -> Vec<(&'static str, u64)> {
-    vec![("grid", GRID), ("rand", t.n(4000, 400_000)), ("large", t.n(1500, 40_000))]
+    vec![("grid", GRID), ("rand", t.n(4000, 2_000_000)), ("large", t.n(1500, 200_000))]
 }
 fn floors(t: Tier) -> Vec<(&'static str, u64)> {
     vec![("evaluations", t.n(18_000, 400_000)), ("admissible_checked", 30_000), ("refusals_observed", 5_000)]
